@@ -87,7 +87,7 @@ func GenDef(r *rand.Rand, p *Profile) Cfg {
 			c.Nodes = append(c.Nodes, n)
 			if chance(r, 0.4) {
 				sn := pick(r, cmdPool)
-				c.Nodes = append(c.Nodes, NodeCfg{Name: T(sn), Parent: len(c.Nodes), Um: n.Um, Ro: n.Ro, Fn: chance(r, 0.8)})
+				c.Nodes = append(c.Nodes, NodeCfg{Name: T(sn), Parent: len(c.Nodes), Um: n.Um, Ro: n.Ro || chance(r, p.Ro/2), Fn: chance(r, 0.8)})
 			}
 		}
 	}
@@ -214,7 +214,7 @@ func GenDef(r *rand.Rand, p *Profile) Cfg {
 		}
 		if chance(r, p.Env) {
 			switch kind {
-			case "bool", "string", "int", "float", "sopt", "iopt", "fopt", "incr", "sslice":
+			case "bool", "string", "int", "float", "sopt", "iopt", "fopt", "incr", "sslice", "islice", "fslice", "smap":
 				envN++
 				o.Env = T("VERIF_ENV_" + string(rune('A'+envN)))
 			}
